@@ -84,9 +84,9 @@ pub fn mix(s: u64, a: u64, b: u64) -> u64 {
     }
 }
 
-/// Default mode under Kani: CBMC's own uninterpreted function symbol (harness/common/uf.c, linked by the
-/// driver). Same semantics as the table (a function, nothing else known), far cheaper for the solver; when a
-/// harness fails in this mode the driver re-runs it in table mode to obtain replayable values.
+// Default mode under Kani: CBMC's own uninterpreted function symbol (harness/common/uf.c, linked by the
+// driver). Same semantics as the table (a function, nothing else known), far cheaper for the solver; when a
+// harness fails in this mode the driver re-runs it in table mode to obtain replayable values.
 #[cfg(all(kani, not(verif_uf_table)))]
 extern "C" {
     fn uf_mix(s: u64, a: u64, b: u64) -> u64;
